@@ -498,6 +498,7 @@ func (p *Pool) worker() {
 			ob.ScriptHash = fmt.Sprintf("%x", h[:8])
 			ob.Script, ob.Script2 = "", ""
 			ob.Vars, ob.Vars2 = nil, nil
+			ob.Bounds, ob.Orders, ob.ProbeModels = nil, nil, nil
 		}
 		ob.Ms = time.Since(t0).Milliseconds()
 		ob.done <- struct{}{}
